@@ -275,7 +275,40 @@ func (e *Effects) applySummary(fn *ssa.Function, s *fnState, sum *Summary, site 
 		return r, c
 	}
 	via := FnName(callee)
+	// a visitor helper called here with a function literal: what the helper does through its callback parameter is what
+	// this literal does, not what the literals other callers hand to the same helper do
+	notHere := map[string]bool{}
+	for k, par := range callee.Params {
+		if _, isSig := par.Type().Underlying().(*types.Signature); !isSig || k >= len(actuals) {
+			continue
+		}
+		mc, ok := actuals[k].(*ssa.MakeClosure)
+		if !ok {
+			continue
+		}
+		here, _ := mc.Fn.(*ssa.Function)
+		for _, cb := range callee.Blocks {
+			for _, ci := range cb.Instrs {
+				dc, ok := ci.(ssa.CallInstruction)
+				if !ok || dc.Common().Value != ssa.Value(par) {
+					continue
+				}
+				targets, _ := e.p.Callees(callee, dc)
+				for _, t := range targets {
+					if t != here && t.Parent() != nil {
+						notHere[FnName(t)] = true
+					}
+				}
+			}
+		}
+		if here != nil {
+			delete(notHere, FnName(here))
+		}
+	}
 	for _, ef := range sortedEffects(cs.Effects) {
+		if len(notHere) > 0 && (notHere[ef.Fn] || viaMentions(ef.Via, notHere)) {
+			continue
+		}
 		v2 := via
 		if ef.Via != "" {
 			v2 = via + ">" + ef.Via
@@ -397,4 +430,17 @@ func (e *Effects) applySummary(fn *ssa.Function, s *fnState, sum *Summary, site 
 			}
 		}
 	}
+}
+
+// viaMentions: the call chain of an effect goes through one of the named functions.
+func viaMentions(via string, names map[string]bool) bool {
+	if via == "" {
+		return false
+	}
+	for _, part := range strings.Split(via, ">") {
+		if names[part] {
+			return true
+		}
+	}
+	return false
 }
